@@ -301,10 +301,10 @@ PROPS = {
                         "the re-parse / fixed-point clause of corrected_citation() (round trip through the extractor)"],
     },
     "C19": {
-        "pins": ["models.Document.__post_init__", "models.Document.tokenize", "models.CitationBase.__post_init__"],
-        "contracts": ["a_common", "c18_helpers", "helpers", "filter", "refs", "annotate"],
-        "functions": ["find.extract_pincited_reference_citations", "find.find_reference_citations_from_markup", "helpers.filter_citations",
-                      "annotate.SpanUpdater.__init__", "annotate.SpanUpdater.update"],
+        "pins": ["models.Document.__post_init__", "models.Document.tokenize", "models.CitationBase.__post_init__", "utils.is_valid_name"],
+        "contracts": API_CONTRACTS,
+        "functions": ["find.extract_pincited_reference_citations", "find.find_reference_citations_from_markup", "find.extract_reference_citations", "helpers.filter_citations",
+                      "annotate.SpanUpdater.__init__", "annotate.SpanUpdater.update", "find.get_citations"],
         "extra": [_c19_extra],
         "assumptions": ["non-interference is proved as a frame argument: (syntactic, on the AST) markup flows only into Document(...) and the reference extractors, which build nothing but "
                         "ReferenceCitation objects and store to no existing object; (SMT) filter_citations keeps every non-reference citation and invents nothing (C03)",
